@@ -17,4 +17,6 @@ PROPS = {
     "C12": P(),
     "C13": P(),
     "C14": P(race={"thorough": True}),
+    "C15": P(pkg="packets", harness="packets", race={"thorough": True}),
+    "C18": P(pkg="ringbuffer", harness="ringbuffer", race={"thorough": True}),
 }
